@@ -1,1 +1,864 @@
-//! (stub)
+//! Independent decoders for rANS 4x8 (CRAM 3.0, order 0 and 1) and rANS Nx16 (CRAM 3.1, orders 0/1
+//! with the PACK, RLE, STRIPE, CAT, NOSZ and X32 options), written from the pseudocode of the "CRAM
+//! codec specification" (CRAMcodecs), not from noodles. They never panic: every malformed-input
+//! situation is an `Err(RefErr)` naming the stage at which decoding failed.
+//!
+//! `self_test()` pins both decoders on the literal streams found in noodles' own unit tests
+//! (`noodles-cram/src/codecs/rans_4x8/{encode,decode}.rs`, `.../encode/order_0.rs`,
+//! `noodles-cram/src/codecs/rans_nx16/{encode,decode}.rs`), several of which come from other
+//! implementations (they are not what noodles' encoder produces for the same input).
+//!
+//! Points where the specification leaves room, and what this reference does:
+//! * a compressed order-1 frequency table (Nx16) is decoded with 4 interleaved states, as the text
+//!   says ("RansDecodeNx16_0 ... N = 4"); compressed RLE metadata is decoded with the stream's own
+//!   N. noodles never emits either, so neither choice affects the C08 verdicts; the use of these
+//!   paths is reported through `Info::ambiguous`.
+//! * frequencies that do not sum to a power of two ≤ 2^bits (Nx16) or that exceed 4096 in total
+//!   (4x8) are rejected here (`Stage::FreqTable`): a decoder's symbol lookup is undefined for them.
+
+use crate::oracle::varint_ref;
+
+#[derive(Clone, Copy, Debug, PartialEq, Eq)]
+pub enum Stage {
+    Header,
+    FreqTable,
+    States,
+    Payload,
+    PackMeta,
+    RleMeta,
+    Stripe,
+    Cat,
+    Size,
+}
+
+impl Stage {
+    pub fn name(self) -> &'static str {
+        match self {
+            Stage::Header => "header",
+            Stage::FreqTable => "freq-table",
+            Stage::States => "states",
+            Stage::Payload => "payload",
+            Stage::PackMeta => "pack-meta",
+            Stage::RleMeta => "rle-meta",
+            Stage::Stripe => "stripe",
+            Stage::Cat => "cat",
+            Stage::Size => "size",
+        }
+    }
+}
+
+#[derive(Clone, Debug)]
+pub struct RefErr {
+    pub stage: Stage,
+    pub msg: String,
+}
+
+fn err<T>(stage: Stage, msg: impl Into<String>) -> Result<T, RefErr> {
+    Err(RefErr { stage, msg: msg.into() })
+}
+
+/// Side information about a decode (for labels and for the "ambiguous path" rule).
+#[derive(Clone, Debug, Default)]
+pub struct Info {
+    /// a path on which the specification text leaves room was taken
+    pub ambiguous: bool,
+    /// bytes of the input left unread at the end (top level)
+    pub trailing: usize,
+    /// final flag byte(s) seen at the top level (Nx16)
+    pub flags: u8,
+    /// bits of the order-1 table (Nx16)
+    pub o1_bits: u8,
+    /// some symbol list / alphabet read so far begins with symbol 1 (set before any failure that
+    /// it may lead to; used to recognise the class of streams hit by a known noodles defect)
+    pub symlist_first_1: bool,
+    /// number of entropy-coded (sub)streams walked
+    pub entropy_streams: u32,
+}
+
+struct Cur<'a> {
+    b: &'a [u8],
+    p: usize,
+}
+
+impl<'a> Cur<'a> {
+    fn new(b: &'a [u8]) -> Self {
+        Cur { b, p: 0 }
+    }
+    fn left(&self) -> usize {
+        self.b.len() - self.p
+    }
+    fn u8(&mut self, st: Stage) -> Result<u8, RefErr> {
+        match self.b.get(self.p) {
+            Some(x) => {
+                self.p += 1;
+                Ok(*x)
+            }
+            None => err(st, "unexpected end of data"),
+        }
+    }
+    fn peek(&self) -> Option<u8> {
+        self.b.get(self.p).copied()
+    }
+    fn take(&mut self, n: usize, st: Stage) -> Result<&'a [u8], RefErr> {
+        if self.left() < n {
+            return err(st, format!("need {n} bytes, {} left", self.left()));
+        }
+        let s = &self.b[self.p..self.p + n];
+        self.p += n;
+        Ok(s)
+    }
+    fn u32le(&mut self, st: Stage) -> Result<u32, RefErr> {
+        let s = self.take(4, st)?;
+        Ok(u32::from_le_bytes([s[0], s[1], s[2], s[3]]))
+    }
+    fn u16le(&mut self, st: Stage) -> Result<u32, RefErr> {
+        let s = self.take(2, st)?;
+        Ok(u16::from_le_bytes([s[0], s[1]]) as u32)
+    }
+    fn uint7(&mut self, st: Stage) -> Result<u32, RefErr> {
+        match varint_ref::uint7_decode(&self.b[self.p..]) {
+            Ok((v, n)) => {
+                self.p += n;
+                Ok(v)
+            }
+            Err(e) => err(st, e),
+        }
+    }
+    fn itf8(&mut self, st: Stage) -> Result<i32, RefErr> {
+        match varint_ref::itf8_decode(&self.b[self.p..]) {
+            Ok((v, n)) => {
+                self.p += n;
+                Ok(v)
+            }
+            Err(e) => err(st, e),
+        }
+    }
+}
+
+// ------------------------------------------------------------------------------------------------
+// rANS 4x8
+
+const TF_SHIFT_4X8: u32 = 12;
+const RANS_L_4X8: u32 = 1 << 23;
+
+struct Table {
+    f: [u32; 256],
+    c: [u32; 257],
+    /// slot -> symbol, for slots < total
+    lookup: Vec<u8>,
+}
+
+impl Table {
+    fn from_freqs(f: [u32; 256], slots: usize) -> Result<Table, RefErr> {
+        let mut c = [0u32; 257];
+        for s in 0..256 {
+            c[s + 1] = c[s] + f[s];
+        }
+        if c[256] as usize > slots {
+            return err(Stage::FreqTable, format!("frequencies sum to {} > {}", c[256], slots));
+        }
+        let mut lookup = vec![0u8; c[256] as usize];
+        for s in 0..256 {
+            for x in c[s]..c[s + 1] {
+                lookup[x as usize] = s as u8;
+            }
+        }
+        Ok(Table { f, c, lookup })
+    }
+    fn symbol(&self, slot: u32) -> Result<u8, RefErr> {
+        match self.lookup.get(slot as usize) {
+            Some(s) => Ok(*s),
+            None => err(Stage::Payload, format!("cumulative frequency {slot} is outside the table (total {})", self.lookup.len())),
+        }
+    }
+}
+
+/// CRAM 3.0 order-0 frequency table: symbol, frequency (1 or 2 bytes, ITF8), with a run length
+/// byte after every symbol that directly follows its predecessor; terminated by symbol 0.
+fn read_freqs_4x8_o0(cur: &mut Cur, info: &mut Info) -> Result<[u32; 256], RefErr> {
+    let st = Stage::FreqTable;
+    let mut f = [0u32; 256];
+    let mut sym = cur.u8(st)? as usize;
+    if sym == 1 {
+        info.symlist_first_1 = true;
+    }
+    let mut last_sym = sym;
+    let mut rle = 0usize;
+    let mut guard = 0;
+    loop {
+        guard += 1;
+        if guard > 600 {
+            return err(st, "symbol list does not terminate");
+        }
+        let v = cur.itf8(st)?;
+        if !(0..=4096).contains(&v) {
+            return err(st, format!("frequency {v} out of range"));
+        }
+        f[sym] = v as u32;
+        if rle > 0 {
+            rle -= 1;
+            sym += 1;
+            if sym > 255 {
+                return err(st, "run passes symbol 255");
+            }
+        } else {
+            sym = cur.u8(st)? as usize;
+            if sym == last_sym + 1 {
+                rle = cur.u8(st)? as usize;
+            }
+        }
+        last_sym = sym;
+        if sym == 0 {
+            break;
+        }
+    }
+    Ok(f)
+}
+
+fn rans4x8_advance(r: u32, f: u32, c: u32, cur: &mut Cur) -> Result<u32, RefErr> {
+    let mut r = (f as u64 * (r >> TF_SHIFT_4X8) as u64 + (r & 0xfff) as u64).wrapping_sub(c as u64) as u32;
+    while r < RANS_L_4X8 {
+        r = (r << 8) | cur.u8(Stage::Payload)? as u32;
+    }
+    Ok(r)
+}
+
+/// Decode a complete rANS 4x8 stream (with its 9-byte header). The `Info` is filled in as far as
+/// decoding got, also on failure.
+pub fn rans4x8_decode(src: &[u8]) -> (Result<Vec<u8>, RefErr>, Info) {
+    let mut info = Info::default();
+    let r = rans4x8_inner(src, &mut info);
+    (r, info)
+}
+
+fn rans4x8_inner(src: &[u8], info: &mut Info) -> Result<Vec<u8>, RefErr> {
+    let mut cur = Cur::new(src);
+    let order = cur.u8(Stage::Header)?;
+    let comp_size = cur.u32le(Stage::Header)? as usize;
+    let out_len = cur.u32le(Stage::Header)? as usize;
+    if order > 1 {
+        return err(Stage::Header, format!("order byte {order}"));
+    }
+    if comp_size != cur.left() {
+        return err(Stage::Size, format!("header compressed size {comp_size}, {} bytes follow the header", cur.left()));
+    }
+    if out_len > (1 << 30) {
+        return err(Stage::Header, "unreasonable uncompressed size");
+    }
+    let mut out = vec![0u8; out_len];
+    if out_len == 0 {
+        // nothing to decode; the specification does not say what such a stream contains
+        info.ambiguous = true;
+        info.trailing = cur.left();
+        return Ok(out);
+    }
+    info.entropy_streams += 1;
+    if order == 0 {
+        let t = Table::from_freqs(read_freqs_4x8_o0(&mut cur, info)?, 4096)?;
+        let mut r = [0u32; 4];
+        for x in r.iter_mut() {
+            *x = cur.u32le(Stage::States)?;
+        }
+        for (i, o) in out.iter_mut().enumerate() {
+            let j = i & 3;
+            let s = t.symbol(r[j] & 0xfff)?;
+            *o = s;
+            r[j] = rans4x8_advance(r[j], t.f[s as usize], t.c[s as usize], &mut cur)?;
+        }
+    } else {
+        // order-1 table: context symbols with the same run-length scheme, each followed by an
+        // order-0 table
+        let st = Stage::FreqTable;
+        let mut tables: Vec<Option<Table>> = (0..256).map(|_| None).collect();
+        let mut sym = cur.u8(st)? as usize;
+        let mut last_sym = sym;
+        let mut rle = 0usize;
+        let mut guard = 0;
+        loop {
+            guard += 1;
+            if guard > 600 {
+                return err(st, "context list does not terminate");
+            }
+            tables[sym] = Some(Table::from_freqs(read_freqs_4x8_o0(&mut cur, info)?, 4096)?);
+            if rle > 0 {
+                rle -= 1;
+                sym += 1;
+                if sym > 255 {
+                    return err(st, "context run passes symbol 255");
+                }
+            } else {
+                sym = cur.u8(st)? as usize;
+                if sym == last_sym + 1 {
+                    rle = cur.u8(st)? as usize;
+                }
+            }
+            last_sym = sym;
+            if sym == 0 {
+                break;
+            }
+        }
+        let mut r = [0u32; 4];
+        for x in r.iter_mut() {
+            *x = cur.u32le(Stage::States)?;
+        }
+        let q = out_len / 4;
+        let mut ctx = [0usize; 4];
+        let step = |j: usize, pos: usize, r: &mut [u32; 4], ctx: &mut [usize; 4], out: &mut Vec<u8>, cur: &mut Cur| -> Result<(), RefErr> {
+            let t = match &tables[ctx[j]] {
+                Some(t) => t,
+                None => return err(Stage::Payload, format!("context {} has no table", ctx[j])),
+            };
+            let s = t.symbol(r[j] & 0xfff)?;
+            out[pos] = s;
+            r[j] = rans4x8_advance(r[j], t.f[s as usize], t.c[s as usize], cur)?;
+            ctx[j] = s as usize;
+            Ok(())
+        };
+        for i in 0..q {
+            for j in 0..4 {
+                step(j, i + j * q, &mut r, &mut ctx, &mut out, &mut cur)?;
+            }
+        }
+        for pos in 4 * q..out_len {
+            step(3, pos, &mut r, &mut ctx, &mut out, &mut cur)?;
+        }
+    }
+    info.trailing = cur.left();
+    Ok(out)
+}
+
+// ------------------------------------------------------------------------------------------------
+// rANS Nx16
+
+pub const F_ORDER: u8 = 0x01;
+pub const F_X32: u8 = 0x04;
+pub const F_STRIPE: u8 = 0x08;
+pub const F_NOSZ: u8 = 0x10;
+pub const F_CAT: u8 = 0x20;
+pub const F_RLE: u8 = 0x40;
+pub const F_PACK: u8 = 0x80;
+
+/// Symbol list of the Nx16 tables: symbols in increasing order; a symbol equal to its predecessor
+/// plus one is followed by the count of further consecutive symbols; terminated by 0.
+fn read_alphabet(cur: &mut Cur, info: &mut Info) -> Result<[bool; 256], RefErr> {
+    let st = Stage::FreqTable;
+    let mut a = [false; 256];
+    let mut rle = 0usize;
+    let mut sym = cur.u8(st)? as usize;
+    if sym == 1 {
+        info.symlist_first_1 = true;
+    }
+    let mut last_sym = sym;
+    let mut guard = 0;
+    loop {
+        guard += 1;
+        if guard > 600 {
+            return err(st, "alphabet does not terminate");
+        }
+        a[sym] = true;
+        if rle > 0 {
+            rle -= 1;
+            sym += 1;
+            if sym > 255 {
+                return err(st, "alphabet run passes symbol 255");
+            }
+        } else {
+            sym = cur.u8(st)? as usize;
+            if sym == last_sym + 1 {
+                rle = cur.u8(st)? as usize;
+            }
+        }
+        last_sym = sym;
+        if sym == 0 {
+            break;
+        }
+    }
+    Ok(a)
+}
+
+/// Scale a frequency row up to `1 << bits` by a power of two, as the decoder is told to.
+fn normalise_nx16(f: &mut [u32; 256], bits: u32) -> Result<(), RefErr> {
+    let tot: u64 = f.iter().map(|x| *x as u64).sum();
+    let target = 1u64 << bits;
+    if tot == 0 || tot == target {
+        return Ok(());
+    }
+    if tot > target {
+        return err(Stage::FreqTable, format!("frequencies sum to {tot} > {target}"));
+    }
+    let mut shift = 0;
+    let mut t = tot;
+    while t < target {
+        t *= 2;
+        shift += 1;
+    }
+    if t != target {
+        return err(Stage::FreqTable, format!("frequencies sum to {tot}, not a power-of-two fraction of {target}"));
+    }
+    for x in f.iter_mut() {
+        *x <<= shift;
+    }
+    Ok(())
+}
+
+fn nx16_advance(r: u32, f: u32, c: u32, bits: u32, cur: &mut Cur) -> Result<u32, RefErr> {
+    let mask = (1u32 << bits) - 1;
+    let mut r = (f as u64 * (r >> bits) as u64 + (r & mask) as u64).wrapping_sub(c as u64) as u32;
+    if r < (1 << 15) {
+        r = (r << 16) | cur.u16le(Stage::Payload)?;
+    }
+    Ok(r)
+}
+
+fn nx16_o0(cur: &mut Cur, out_len: usize, n: usize, info: &mut Info) -> Result<Vec<u8>, RefErr> {
+    info.entropy_streams += 1;
+    let a = read_alphabet(cur, info)?;
+    let mut f = [0u32; 256];
+    for s in 0..256 {
+        if a[s] {
+            f[s] = cur.uint7(Stage::FreqTable)?;
+        }
+    }
+    normalise_nx16(&mut f, 12)?;
+    let t = Table::from_freqs(f, 4096)?;
+    let mut r = vec![0u32; n];
+    for x in r.iter_mut() {
+        *x = cur.u32le(Stage::States)?;
+    }
+    let mut out = vec![0u8; out_len];
+    for (i, o) in out.iter_mut().enumerate() {
+        let j = i % n;
+        let s = t.symbol(r[j] & 0xfff)?;
+        *o = s;
+        r[j] = nx16_advance(r[j], t.f[s as usize], t.c[s as usize], 12, cur)?;
+    }
+    Ok(out)
+}
+
+fn read_o1_table(cur: &mut Cur, bits: u32, info: &mut Info) -> Result<Vec<Option<Table>>, RefErr> {
+    let a = read_alphabet(cur, info)?;
+    let mut tables: Vec<Option<Table>> = (0..256).map(|_| None).collect();
+    for i in 0..256 {
+        if !a[i] {
+            continue;
+        }
+        let mut f = [0u32; 256];
+        let mut run = 0u32;
+        for j in 0..256 {
+            if !a[j] {
+                continue;
+            }
+            if run > 0 {
+                run -= 1;
+            } else {
+                f[j] = cur.uint7(Stage::FreqTable)?;
+                if f[j] == 0 {
+                    run = cur.u8(Stage::FreqTable)? as u32;
+                }
+            }
+        }
+        normalise_nx16(&mut f, bits)?;
+        tables[i] = Some(Table::from_freqs(f, 1 << bits)?);
+    }
+    Ok(tables)
+}
+
+fn nx16_o1(cur: &mut Cur, out_len: usize, n: usize, info: &mut Info) -> Result<Vec<u8>, RefErr> {
+    info.entropy_streams += 1;
+    let comp = cur.u8(Stage::FreqTable)?;
+    let bits = (comp >> 4) as u32;
+    info.o1_bits = bits as u8;
+    if !(1..=12).contains(&bits) {
+        // the specification uses 10 or 12
+        return err(Stage::FreqTable, format!("order-1 table shift {bits}"));
+    }
+    let tables = if comp & 1 != 0 {
+        info.ambiguous = true;
+        let usize_ = cur.uint7(Stage::FreqTable)? as usize;
+        let csize = cur.uint7(Stage::FreqTable)? as usize;
+        if usize_ > (1 << 24) {
+            return err(Stage::FreqTable, "unreasonable table size");
+        }
+        let cdata = cur.take(csize, Stage::FreqTable)?;
+        let mut c2 = Cur::new(cdata);
+        let raw = nx16_o0(&mut c2, usize_, 4, info)?;
+        let mut c3 = Cur::new(&raw);
+        read_o1_table(&mut c3, bits, info)?
+    } else {
+        read_o1_table(cur, bits, info)?
+    };
+    let mut r = vec![0u32; n];
+    for x in r.iter_mut() {
+        *x = cur.u32le(Stage::States)?;
+    }
+    let mut ctx = vec![0usize; n];
+    let mut out = vec![0u8; out_len];
+    let q = out_len / n;
+    let mask = (1u32 << bits) - 1;
+    let step = |j: usize, pos: usize, r: &mut Vec<u32>, ctx: &mut Vec<usize>, out: &mut Vec<u8>, cur: &mut Cur| -> Result<(), RefErr> {
+        let t = match &tables[ctx[j]] {
+            Some(t) => t,
+            None => return err(Stage::Payload, format!("context {} has no table", ctx[j])),
+        };
+        let s = t.symbol(r[j] & mask)?;
+        out[pos] = s;
+        r[j] = nx16_advance(r[j], t.f[s as usize], t.c[s as usize], bits, cur)?;
+        ctx[j] = s as usize;
+        Ok(())
+    };
+    for i in 0..q {
+        for j in 0..n {
+            step(j, i + j * q, &mut r, &mut ctx, &mut out, cur)?;
+        }
+    }
+    for pos in n * q..out_len {
+        step(n - 1, pos, &mut r, &mut ctx, &mut out, cur)?;
+    }
+    Ok(out)
+}
+
+struct PackMeta {
+    map: Vec<u8>,
+    out_len: usize,
+}
+
+fn unpack(data: &[u8], m: &PackMeta) -> Result<Vec<u8>, RefErr> {
+    let nsym = m.map.len();
+    let mut out = Vec::with_capacity(m.out_len);
+    if nsym == 0 || nsym > 16 {
+        return err(Stage::PackMeta, format!("{nsym} symbols cannot be packed"));
+    }
+    if nsym == 1 {
+        out.resize(m.out_len, m.map[0]);
+        return Ok(out);
+    }
+    let (per_byte, bits) = if nsym == 2 {
+        (8, 1)
+    } else if nsym <= 4 {
+        (4, 2)
+    } else {
+        (2, 4)
+    };
+    let need = m.out_len.div_ceil(per_byte);
+    if data.len() < need {
+        return err(Stage::PackMeta, format!("packed data has {} bytes, {} needed", data.len(), need));
+    }
+    let mask = (1u8 << bits) - 1;
+    let mut v = 0u8;
+    for i in 0..m.out_len {
+        if i % per_byte == 0 {
+            v = data[i / per_byte];
+        }
+        let idx = (v & mask) as usize;
+        v >>= bits;
+        match m.map.get(idx) {
+            Some(s) => out.push(*s),
+            None => return err(Stage::PackMeta, format!("packed value {idx} with {nsym} symbols")),
+        }
+    }
+    Ok(out)
+}
+
+struct RleMeta {
+    is_run_symbol: [bool; 256],
+    /// run lengths (uint7 each), after the symbol list
+    runs: Vec<u8>,
+    out_len: usize,
+}
+
+fn unrle(lits: &[u8], m: &RleMeta) -> Result<Vec<u8>, RefErr> {
+    let mut out = Vec::with_capacity(m.out_len);
+    let mut rc = Cur::new(&m.runs);
+    let mut i = 0;
+    while out.len() < m.out_len {
+        let Some(&s) = lits.get(i) else {
+            return err(Stage::RleMeta, "literals exhausted before the output was complete");
+        };
+        i += 1;
+        out.push(s);
+        if m.is_run_symbol[s as usize] {
+            let run = rc.uint7(Stage::RleMeta)? as usize;
+            if out.len() + run > m.out_len {
+                return err(Stage::RleMeta, "run exceeds the output size");
+            }
+            out.resize(out.len() + run, s);
+        }
+    }
+    Ok(out)
+}
+
+fn nx16_inner(cur: &mut Cur, len_arg: Option<usize>, depth: u32, info: &mut Info, top: bool) -> Result<Vec<u8>, RefErr> {
+    if depth > 2 {
+        return err(Stage::Stripe, "nested stripes");
+    }
+    let flags = cur.u8(Stage::Header)?;
+    if top {
+        info.flags = flags;
+    }
+    let mut len = if flags & F_NOSZ == 0 {
+        cur.uint7(Stage::Header)? as usize
+    } else {
+        match len_arg {
+            Some(l) => l,
+            None => return err(Stage::Header, "NOSZ stream without an external size"),
+        }
+    };
+    if len > (1 << 30) {
+        return err(Stage::Header, "unreasonable uncompressed size");
+    }
+    let n = if flags & F_X32 != 0 { 32 } else { 4 };
+
+    if flags & F_STRIPE != 0 {
+        let x = cur.u8(Stage::Stripe)? as usize;
+        if x == 0 {
+            return err(Stage::Stripe, "zero sub-streams");
+        }
+        let mut clens = Vec::with_capacity(x);
+        for _ in 0..x {
+            clens.push(cur.uint7(Stage::Stripe)? as usize);
+        }
+        let mut out = vec![0u8; len];
+        for (j, clen) in clens.iter().enumerate() {
+            let ulen = len / x + usize::from(len % x > j);
+            let sub = cur.take(*clen, Stage::Stripe)?;
+            let mut c2 = Cur::new(sub);
+            let part = nx16_inner(&mut c2, Some(ulen), depth + 1, info, false)?;
+            if part.len() != ulen {
+                return err(Stage::Stripe, format!("sub-stream {j} decoded to {} bytes, expected {ulen}", part.len()));
+            }
+            for (i, b) in part.iter().enumerate() {
+                out[i * x + j] = *b;
+            }
+        }
+        return Ok(out);
+    }
+
+    let mut pack = None;
+    if flags & F_PACK != 0 {
+        let nsym = cur.u8(Stage::PackMeta)? as usize;
+        let map = cur.take(nsym, Stage::PackMeta)?.to_vec();
+        let packed_len = cur.uint7(Stage::PackMeta)? as usize;
+        pack = Some(PackMeta { map, out_len: len });
+        len = packed_len;
+    }
+
+    let mut rle = None;
+    if flags & F_RLE != 0 {
+        let st = Stage::RleMeta;
+        let meta_hdr = cur.uint7(st)? as usize;
+        let lit_len = cur.uint7(st)? as usize;
+        let meta_len = meta_hdr >> 1;
+        let meta: Vec<u8> = if meta_hdr & 1 != 0 {
+            cur.take(meta_len, st)?.to_vec()
+        } else {
+            info.ambiguous = true;
+            let clen = cur.uint7(st)? as usize;
+            let cdata = cur.take(clen, st)?;
+            let mut c2 = Cur::new(cdata);
+            nx16_o0(&mut c2, meta_len, n, info)?
+        };
+        let mut mc = Cur::new(&meta);
+        let mut nsym = mc.u8(st)? as usize;
+        if nsym == 0 {
+            nsym = 256;
+        }
+        let mut is_run_symbol = [false; 256];
+        for _ in 0..nsym {
+            is_run_symbol[mc.u8(st)? as usize] = true;
+        }
+        let runs = meta[mc.p..].to_vec();
+        rle = Some(RleMeta { is_run_symbol, runs, out_len: len });
+        len = lit_len;
+    }
+    if len > (1 << 30) {
+        return err(Stage::Header, "unreasonable intermediate size");
+    }
+
+    let mut data = if flags & F_CAT != 0 {
+        cur.take(len, Stage::Cat)?.to_vec()
+    } else if flags & F_ORDER != 0 {
+        nx16_o1(cur, len, n, info)?
+    } else {
+        nx16_o0(cur, len, n, info)?
+    };
+
+    if let Some(m) = &rle {
+        data = unrle(&data, m)?;
+    }
+    if let Some(m) = &pack {
+        data = unpack(&data, m)?;
+    }
+    Ok(data)
+}
+
+/// Decode a rANS Nx16 stream. `external_len` is the uncompressed size known from the container
+/// (used only when the stream carries the NOSZ flag).
+pub fn nx16_decode(src: &[u8], external_len: Option<usize>) -> (Result<Vec<u8>, RefErr>, Info) {
+    let mut cur = Cur::new(src);
+    let mut info = Info::default();
+    let r = nx16_inner(&mut cur, external_len, 0, &mut info, true);
+    info.trailing = cur.left();
+    (r, info)
+}
+
+/// Peek helper for labels: does the next byte exist.
+pub fn is_empty_stream(src: &[u8]) -> bool {
+    Cur::new(src).peek().is_none()
+}
+
+// ------------------------------------------------------------------------------------------------
+// Pins
+
+struct Pin {
+    name: &'static str,
+    stream: &'static [u8],
+    expect: &'static [u8],
+}
+
+const NOODLES: &[u8] = b"noodles";
+
+/// rANS 4x8 vectors (transcribed from noodles-cram/src/codecs/rans_4x8/{decode,encode}.rs and
+/// encode/order_0.rs).
+const PINS_4X8: &[Pin] = &[
+    Pin {
+        name: "4x8 decode.rs test_decode_with_order_0 (= encode.rs test_encode_with_order_0)",
+        stream: &[
+            0x00, 0x25, 0x00, 0x00, 0x00, 0x07, 0x00, 0x00, 0x00, 0x64, 0x82, 0x49, 0x65, 0x00, 0x82, 0x49, 0x6c, 0x82, 0x49, 0x6e, 0x82, 0x49, 0x6f, 0x00, 0x84, 0x92, 0x73, 0x82, 0x49, 0x00, 0xe2, 0x06, 0x83, 0x18, 0x74, 0x7b, 0x41,
+            0x0c, 0x2b, 0xa9, 0x41, 0x0c, 0x25, 0x31, 0x80, 0x03,
+        ],
+        expect: NOODLES,
+    },
+    Pin {
+        name: "4x8 decode.rs test_decode_with_order_1",
+        stream: &[
+            0x01, 0x3b, 0x00, 0x00, 0x00, 0x07, 0x00, 0x00, 0x00, 0x00, 0x64, 0x84, 0x00, 0x6e, 0x84, 0x00, 0x6f, 0x00, 0x87, 0xff, 0x00, 0x64, 0x6c, 0x8f, 0xff, 0x00, 0x65, 0x00, 0x73, 0x8f, 0xff, 0x00, 0x6c, 0x65, 0x8f, 0xff, 0x00,
+            0x6e, 0x6f, 0x8f, 0xff, 0x00, 0x6f, 0x00, 0x64, 0x87, 0xff, 0x6f, 0x88, 0x00, 0x00, 0x00, 0x00, 0x04, 0x00, 0x02, 0x02, 0x28, 0x00, 0x01, 0x02, 0x28, 0x00, 0x01, 0x02, 0x60, 0x00, 0x02,
+        ],
+        expect: NOODLES,
+    },
+    Pin {
+        name: "4x8 encode.rs test_encode_with_order_1",
+        stream: &[
+            0x01, 0x3b, 0x00, 0x00, 0x00, 0x07, 0x00, 0x00, 0x00, 0x00, 0x64, 0x83, 0xff, 0x6e, 0x83, 0xff, 0x6f, 0x00, 0x88, 0x01, 0x00, 0x64, 0x6c, 0x8f, 0xff, 0x00, 0x65, 0x00, 0x73, 0x8f, 0xff, 0x00, 0x6c, 0x65, 0x8f, 0xff, 0x00,
+            0x6e, 0x6f, 0x8f, 0xff, 0x00, 0x6f, 0x00, 0x64, 0x87, 0xff, 0x6f, 0x88, 0x00, 0x00, 0x00, 0x07, 0x84, 0x00, 0x02, 0x00, 0xe8, 0xff, 0x00, 0x00, 0xe8, 0xff, 0x00, 0x10, 0xe0, 0x00, 0x02,
+        ],
+        expect: NOODLES,
+    },
+    Pin {
+        name: "4x8 encode/order_0.rs test_encode (abracadabra, run-length symbol list)",
+        stream: &[
+            0x00, 0x1f, 0x00, 0x00, 0x00, 0x0b, 0x00, 0x00, 0x00, 0x61, 0x87, 0x47, 0x62, 0x02, 0x82, 0xe8, 0x81, 0x74, 0x81, 0x74, 0x72, 0x82, 0xe8, 0x00, 0xd2, 0x02, 0xa4, 0x42, 0x0d, 0x3a, 0x52, 0x21, 0xd0, 0xfe, 0xa1, 0x42, 0x40,
+            0xa6, 0x6a, 0x02,
+        ],
+        expect: b"abracadabra",
+    },
+];
+
+/// rANS Nx16 vectors (transcribed from noodles-cram/src/codecs/rans_nx16/{decode,encode}.rs).
+const PINS_NX16: &[Pin] = &[
+    Pin {
+        name: "nx16 decode.rs test_decode_order_0 (frequencies need the power-of-two scaling)",
+        stream: &[
+            0x00, 0x07, 0x64, 0x65, 0x00, 0x6c, 0x6e, 0x6f, 0x00, 0x73, 0x00, 0x01, 0x01, 0x01, 0x01, 0x03, 0x01, 0x00, 0x26, 0x20, 0x00, 0x00, 0xb8, 0x0a, 0x00, 0x00, 0xd8, 0x0a, 0x00, 0x00, 0x00, 0x04, 0x00,
+        ],
+        expect: NOODLES,
+    },
+    Pin {
+        name: "nx16 decode.rs test_decode_order_1 (10-bit table)",
+        stream: &[
+            0x01, 0x4d, 0xa0, 0x00, 0x64, 0x65, 0x00, 0x6c, 0x6e, 0x6f, 0x00, 0x73, 0x00, 0x00, 0x00, 0x01, 0x01, 0x00, 0x00, 0x01, 0x01, 0x00, 0x00, 0x00, 0x00, 0x0f, 0x00, 0x00, 0x01, 0x00, 0x02, 0x00, 0x01, 0x0f, 0x00, 0x02, 0x01,
+            0x00, 0x01, 0x01, 0x0f, 0x00, 0x02, 0x00, 0x03, 0x0f, 0x01, 0x00, 0x00, 0x00, 0x00, 0x01, 0x00, 0x02, 0x0f, 0x00, 0x00, 0x00, 0x05, 0x10, 0x80, 0x72, 0x60, 0x00, 0x80, 0x8b, 0x5f, 0x00, 0xc0, 0xb0, 0x60, 0x00, 0x40, 0x49,
+            0x39, 0x00,
+        ],
+        expect: b"nnnnnnnnnnnnooooooooooooooooddddddddddddddllllllllllllllleeeeeeeeeessssssssss",
+    },
+    Pin {
+        name: "nx16 decode.rs test_decode_stripe",
+        stream: &[
+            0x08, 0x07, 0x04, 0x17, 0x17, 0x17, 0x15, 0x00, 0x02, 0x6c, 0x6e, 0x00, 0x01, 0x01, 0x00, 0x08, 0x01, 0x00, 0x00, 0x00, 0x01, 0x00, 0x00, 0x80, 0x00, 0x00, 0x00, 0x80, 0x00, 0x00, 0x00, 0x02, 0x65, 0x6f, 0x00, 0x01, 0x01,
+            0x00, 0x08, 0x01, 0x00, 0x00, 0x00, 0x01, 0x00, 0x00, 0x80, 0x00, 0x00, 0x00, 0x80, 0x00, 0x00, 0x00, 0x02, 0x6f, 0x73, 0x00, 0x01, 0x01, 0x00, 0x00, 0x01, 0x00, 0x00, 0x08, 0x01, 0x00, 0x00, 0x80, 0x00, 0x00, 0x00, 0x80,
+            0x00, 0x00, 0x00, 0x01, 0x64, 0x00, 0x01, 0x00, 0x80, 0x00, 0x00, 0x00, 0x80, 0x00, 0x00, 0x00, 0x80, 0x00, 0x00, 0x00, 0x80, 0x00, 0x00, 0x00, 0x02, 0x00, 0x00, 0x00, 0x00, 0x00, 0x00, 0x00, 0x22, 0x00, 0x81, 0x11, 0x01,
+            0x7f, 0x00,
+        ],
+        expect: NOODLES,
+    },
+    Pin { name: "nx16 decode.rs test_decode_uncompressed", stream: &[0x20, 0x07, 0x6e, 0x6f, 0x6f, 0x64, 0x6c, 0x65, 0x73], expect: NOODLES },
+    Pin {
+        name: "nx16 decode.rs test_decode_rle (compressed run metadata)",
+        stream: &[
+            0x40, 0x0d, 0x06, 0x06, 0x17, 0x01, 0x07, 0x6f, 0x00, 0x02, 0x01, 0x01, 0x00, 0x00, 0x01, 0x00, 0x00, 0x0c, 0x02, 0x00, 0x00, 0x08, 0x02, 0x00, 0x00, 0x80, 0x00, 0x00, 0x64, 0x65, 0x00, 0x6c, 0x6e, 0x6f, 0x00, 0x73, 0x00,
+            0x03, 0x01, 0x01, 0x01, 0x01, 0x01, 0x00, 0x3a, 0x20, 0x00, 0x00, 0x7c, 0x20, 0x00, 0x00, 0x52, 0x01, 0x00, 0x00, 0x08, 0x04, 0x00,
+        ],
+        expect: b"noooooooodles",
+    },
+    Pin {
+        name: "nx16 decode.rs test_decode_bit_packing_with_6_symbols",
+        stream: &[
+            0x80, 0x07, 0x06, 0x64, 0x65, 0x6c, 0x6e, 0x6f, 0x73, 0x04, 0x04, 0x05, 0x00, 0x12, 0x43, 0x00, 0x01, 0x01, 0x01, 0x01, 0x00, 0x0c, 0x02, 0x00, 0x00, 0x00, 0x02, 0x00, 0x00, 0x08, 0x02, 0x00, 0x00, 0x04, 0x02, 0x00,
+        ],
+        expect: NOODLES,
+    },
+    Pin {
+        name: "nx16 encode.rs test_encode_order_0",
+        stream: &[
+            0x00, 0x07, 0x64, 0x65, 0x00, 0x6c, 0x6e, 0x6f, 0x00, 0x73, 0x00, 0x84, 0x49, 0x84, 0x49, 0x84, 0x49, 0x84, 0x49, 0x89, 0x13, 0x84, 0x49, 0x1b, 0xa7, 0x18, 0x00, 0xe9, 0x4a, 0x0c, 0x00, 0x31, 0x6d, 0x0c, 0x00, 0x08, 0x80,
+            0x03, 0x00,
+        ],
+        expect: NOODLES,
+    },
+    Pin {
+        name: "nx16 encode.rs test_encode_order_1",
+        stream: &[
+            0x01, 0x07, 0xc0, 0x00, 0x64, 0x65, 0x00, 0x6c, 0x6e, 0x6f, 0x00, 0x73, 0x00, 0x00, 0x00, 0x88, 0x00, 0x00, 0x01, 0x88, 0x00, 0x90, 0x00, 0x00, 0x00, 0x00, 0x02, 0xa0, 0x00, 0x00, 0x02, 0x00, 0x05, 0xa0, 0x00, 0x00, 0x01,
+            0xa0, 0x00, 0x00, 0x03, 0x00, 0x04, 0xa0, 0x00, 0x00, 0x00, 0x00, 0x00, 0x90, 0x00, 0x00, 0x02, 0x90, 0x00, 0x00, 0x00, 0x00, 0x06, 0x00, 0x04, 0x02, 0x00, 0x00, 0x08, 0x01, 0x00, 0x00, 0x08, 0x01, 0x00, 0x00, 0x00, 0x02,
+            0x00,
+        ],
+        expect: NOODLES,
+    },
+    Pin {
+        name: "nx16 encode.rs test_encode_stripe",
+        stream: &[0x08, 0x07, 0x04, 0x03, 0x03, 0x03, 0x02, 0x30, 0x6e, 0x6c, 0x30, 0x6f, 0x65, 0x30, 0x6f, 0x73, 0x30, 0x64],
+        expect: NOODLES,
+    },
+    Pin { name: "nx16 encode.rs test_encode_rle (CAT|RLE, raw run metadata)", stream: &[0x60, 0x0d, 0x07, 0x06, 0x01, 0x6f, 0x07, 0x6e, 0x6f, 0x64, 0x6c, 0x65, 0x73], expect: b"noooooooodles" },
+    Pin {
+        name: "nx16 encode.rs test_encode_pack",
+        stream: &[
+            0x80, 0x07, 0x06, 0x64, 0x65, 0x6c, 0x6e, 0x6f, 0x73, 0x04, 0x04, 0x05, 0x00, 0x12, 0x43, 0x00, 0x88, 0x00, 0x88, 0x00, 0x88, 0x00, 0x88, 0x00, 0x00, 0x0c, 0x02, 0x00, 0x00, 0x00, 0x02, 0x00, 0x00, 0x08, 0x02, 0x00, 0x00,
+            0x04, 0x02, 0x00,
+        ],
+        expect: NOODLES,
+    },
+];
+
+pub fn self_test() -> Result<(), String> {
+    for p in PINS_4X8 {
+        let (r, info) = rans4x8_decode(p.stream);
+        match r {
+            Ok(out) => {
+                if out != p.expect {
+                    return Err(format!("pin '{}': reference decodes to {:?}", p.name, String::from_utf8_lossy(&out)));
+                }
+                if info.trailing != 0 {
+                    return Err(format!("pin '{}': {} trailing bytes", p.name, info.trailing));
+                }
+            }
+            Err(e) => return Err(format!("pin '{}': reference fails at {}: {}", p.name, e.stage.name(), e.msg)),
+        }
+    }
+    for p in PINS_NX16 {
+        let (r, info) = nx16_decode(p.stream, None);
+        match r {
+            Ok(out) => {
+                // (the transcribed stripe vector carries 16 bytes after the last sub-stream, so
+                // unread trailing bytes are not checked here)
+                let _ = info.trailing;
+                if out != p.expect {
+                    return Err(format!("pin '{}': reference decodes to {:?}", p.name, String::from_utf8_lossy(&out)));
+                }
+            }
+            Err(e) => return Err(format!("pin '{}': reference fails at {}: {}", p.name, e.stage.name(), e.msg)),
+        }
+    }
+    Ok(())
+}
